@@ -19,7 +19,7 @@ pub fn meta(tier: &str) -> CheckMeta {
 }
 
 /// passes of (max document bytes, max number of ranges)
-pub fn passes(tier: &str) -> Vec<(usize, usize)> { if tier == "mini" { vec![(5, 2)] } else if tier == "quick" { vec![(10, 2), (6, 3)] } else { vec![(14, 2), (10, 3), (6, 4)] } }
+pub fn passes(tier: &str) -> Vec<(usize, usize)> { if tier == "mini" { vec![(5, 2)] } else if tier == "quick" { vec![(14, 2), (10, 3), (6, 4)] } else { vec![(18, 2), (12, 3), (8, 4)] } }
 pub fn params(tier: &str) -> (usize, usize) { let p = passes(tier); (p[0].0, p.last().unwrap().1) }
 
 fn case_json(lang: &str, doc: &[u8], ranges: &[(usize, usize)]) -> Value {
